@@ -111,9 +111,45 @@ OpenCases(s) ==
               \cup {Re("lenrun" \o ToString(k), i, SubSeq(ib, 1, i - 1) \o Tup([j \in 1..k |-> 196]) \o SubSeq(ib, i, n)) : i \in lens, k \in {4, 64}}
               \cup {Re("append", n, ib \o <<255>>), Re("empty", 0, <<>>)}
            : pi \in 1..Len(paths)})
+\* sizes beyond their bound, everything else consistent: a string or list with a constrained size whose length field (a constrained
+\* whole number of ceil(log2(range)) bits, which can say more than the range when that is no power of two) announces ub + 1 units, or the
+\* largest number the field can hold, with all the announced units present, the extension bit clear and every enclosing length right
+RECURSIVE SizedPaths(_, _)
+RECURSIVE SizedPathsSeq(_, _, _, _)
+SizedPathsSeq(vs, p, i, isFields) ==
+   IF i > Len(vs) THEN <<>>
+   ELSE (IF isFields THEN (IF vs[i].present THEN SizedPaths(vs[i].v, Append(p, i)) ELSE <<>>) ELSE SizedPaths(vs[i], Append(p, i)))
+        \o SizedPathsSeq(vs, p, i + 1, isFields)
+SizedPaths(t, p) ==
+   (IF t.k \in {"octstr", "bitstr", "seqof"} /\ t.lb.has /\ t.ub.has /\ ~FixedSize(t) /\ SizeIsCW(t) THEN <<p>> ELSE <<>>)
+   \o (CASE t.k \in {"open", "choice"} -> (IF "raw" \in DOMAIN t THEN <<>> ELSE SizedPaths(t.v, Append(p, 0)))
+          [] t.k = "seq" -> SizedPathsSeq(t.fields, p, 1, TRUE)
+          [] t.k = "seqof" -> SizedPathsSeq(t.v, p, 1, FALSE)
+          [] OTHER -> <<>>)
+RECURSIVE ReplaceAt(_, _, _)
+ReplaceAt(t, p, node) ==
+   IF Len(p) = 0 THEN node
+   ELSE CASE t.k \in {"open", "choice"} -> [t EXCEPT !.v = ReplaceAt(t.v, Tail(p), node)]
+          [] t.k = "seq" -> [t EXCEPT !.fields[Head(p)].v = ReplaceAt(t.fields[Head(p)].v, Tail(p), node)]
+          [] t.k = "seqof" -> [t EXCEPT !.v[Head(p)] = ReplaceAt(t.v[Head(p)], Tail(p), node)]
+Stretch(node, L) ==
+   CASE node.k = "octstr" -> [node EXCEPT !.v = @ \o Tup([i \in 1..(L - Len(@)) |-> 65])] @@ [forceRoot |-> TRUE]
+     [] node.k = "bitstr" -> [node EXCEPT !.nbits = L, !.v = @ \o Tup([i \in 1..(((L + 7) \div 8) - Len(@)) |-> 0])] @@ [forceRoot |-> TRUE]
+     [] node.k = "seqof" -> [node EXCEPT !.v = @ \o Tup([i \in 1..(L - Len(@)) |-> @[Len(@)]])] @@ [forceRoot |-> TRUE]
+OverCases(s) ==
+   IF "tree" \notin DOMAIN s THEN <<>>
+   ELSE LET paths == SizedPaths(s.tree, <<>>)
+            picks == PickN(paths, IF Budget >= 100 THEN 12 ELSE 5) IN
+        SetToSeq(UNION {
+           LET node == NodeAt(s.tree, p)
+               r == node.ub.n - node.lb.n + 1
+               top == node.lb.n + (IF r <= 255 THEN 2^BitsFor(r) - 1 ELSE IF r = 256 THEN 255 ELSE 65535)
+               Ls == {L \in {node.ub.n + 1, top} : L > node.ub.n /\ L <= 2100 /\ (node.k # "seqof" \/ Len(node.v) > 0)}
+           IN {Case(s, "over" \o node.k, L, PerEncode(ReplaceAt(s.tree, p, Stretch(node, L)))) : L \in Ls}
+           : p \in picks})
 Init == l = 1 /\ out = 0
 Next == /\ l <= Len(Seeds)
-        /\ \E cs \in {CasesOf(Seeds[l]) \o FieldCases(Seeds[l]) \o OpenCases(Seeds[l])} :
+        /\ \E cs \in {CasesOf(Seeds[l]) \o FieldCases(Seeds[l]) \o OpenCases(Seeds[l]) \o OverCases(Seeds[l])} :
              /\ ndJsonSerialize(OutPath \o "." \o ToString(l), cs)
              /\ out' = out + Len(cs)
         /\ l' = l + 1
